@@ -59,7 +59,8 @@ FATAL_OK = set([AD.bad_record_mac, AD.decryption_failed, AD.decode_error,
                 AD.illegal_parameter, AD.decrypt_error,
                 AD.protocol_version])
 
-TRANSFORMS = ["flip", "trunc", "extend", "splice", "replay", "swap", "drop",
+TRANSFORMS = ["flip", "trunc", "extend", "splice", "replay", "replay_later",
+              "swap", "drop",
               "reflect", "foreign", "plain_alert", "plain_ccs",
               "unknown_type", "empty_record", "zero_fill"]
 
@@ -155,6 +156,10 @@ def apply_transform(case, H, ctx):
         D[i] = A[:3] + len(body).to_bytes(2, "big") + body
     elif t == "replay":
         D.insert(i + 1, D[i])
+    elif t == "replay_later":
+        # ... or further down the stream (behind a KeyUpdate: the same
+        # sequence number in the next key epoch)
+        D.insert(i + 1 + case.get("n", 0) % (len(D) - i), D[i])
     elif t == "swap":
         if len(H) < 2:
             return None
@@ -801,7 +806,7 @@ def caseB(draw, tier):
         c["pos"] = draw(st.sampled_from(POS))
         c["mask"] = draw(st.sampled_from([1, 2, 0x40, 0x80, 0xff]))
         c["off"] = draw(st.integers(0, 400))
-    elif t in ("trunc", "extend", "splice"):
+    elif t in ("trunc", "extend", "splice", "replay_later"):
         c["n"] = draw(st.integers(0, 60))
         c["fix"] = draw(st.booleans())
     elif t == "plain_alert":
@@ -926,6 +931,14 @@ def explicit(tier, seed):
                     c.update(f)
                     yield c
                     yield dict(c, hrr=True)
+                # a record of the old key epoch replayed behind the KeyUpdate
+                for i0 in (0, 2):
+                    for n in range(4 - i0):
+                        yield {"level": "B", "suite": sid, "ver": list(v),
+                               "etm": etm, "dir": d,
+                               "items": [["d", 20], ["ku"], ["d", 5], ["ku"],
+                                         ["d", 9]], "i": i0, "n": n,
+                               "t": "replay_later", "salt": seed % 4}
         if iana.SUITES[sid].draft:
             continue
         if iana.SUITES[sid].kind == "cbc" and v < (3, 4):
